@@ -258,6 +258,18 @@ func cmdWorker(args []string, sweep bool) {
 	}
 	for idx := *from; idx < *to; idx++ {
 		w := genWorkload(*prop, *seed, idx, *maxOps)
+		if sweep && idx%2 == 0 {
+			// every other sweep goes to a run whose clients meet inside one
+			// built-in function or inside Compile (narrow windows next to shared
+			// state, if there is any): the next such workload after this index
+			for k := uint64(1); k <= 200; k++ {
+				c := genWorkload(*prop, *seed, idx*1000+k, *maxOps)
+				if c.Note == "family" || c.Note == "storm" {
+					w = c
+					break
+				}
+			}
+		}
 		if *noNative {
 			var ps []simrt.Policy
 			for _, p := range w.Policies {
@@ -280,7 +292,7 @@ func cmdWorker(args []string, sweep bool) {
 		// shared-state access (none on a tree without package-level state)
 		for k := uint64(0); k < 300; k++ {
 			sw := w.clone()
-			sw.Sched = simrt.Schedule{Kind: simrt.StratHotPreempt, First: 0, Seed: w.Sched.Seed, HotK: k}
+			sw.Sched = simrt.Schedule{Kind: simrt.StratHotPreempt, First: int(idx/2) % len(w.Tasks), Seed: w.Sched.Seed, HotK: k}
 			one(sw)
 			if lastHot <= k {
 				break
